@@ -282,7 +282,7 @@ func c10History(w *core.W, hist []c10Sym, refs map[string]string, bound int) {
 func C10OneShot(sym string) {
 	for _, s := range c10Alphabet() {
 		if s.String() == sym {
-			vsync.Scribble = true
+			vsync.Scribble = false // the reference is the plain behaviour; scribbling only exists to expose use-after-Put
 			r := c10Exec(newC10Objects(), s)
 			b, _ := stdjson.Marshal(r.snapshot)
 			fmt.Printf("%s\t%s\n", sym, b)
@@ -319,7 +319,7 @@ func init() {
 		ID:        "C10",
 		Inst:      true,
 		Technique: "exhaustive operation histories over several schema/rule/regex/document objects, each executed under every sync.Pool answer within a deviation bound with a scribbling pool model; every retained result is re-read after every step and compared with its snapshot and with the result of the same call made first in a brand-new process",
-		Rule: "alphabet: 40 symbols = {Check, Example, GetAST, OpenAPI, Len, UsedUserTypes} x 5 schema projects (deep valid, shallow valid, fails in scanner, fails in rule loader, fails in checker) + enum rule {Check, Values, Len, GetAST} + regex {Check, Example, Len} + JSON document {Check, Len, lexeme stream}; repeated symbols act on the already used object; all histories of length <=3 (thorough 4); pool answers: default (most recent), any older item, New(), <=1 (thorough 2) deviations; pooled buffers are overwritten with 0xEE when put back; non-trivial = histories with more than one explored pool environment",
+		Rule:      "alphabet: 40 symbols = {Check, Example, GetAST, OpenAPI, Len, UsedUserTypes} x 5 schema projects (deep valid, shallow valid, fails in scanner, fails in rule loader, fails in checker) + enum rule {Check, Values, Len, GetAST} + regex {Check, Example, Len} + JSON document {Check, Len, lexeme stream}; repeated symbols act on the already used object; all histories of length <=3 (thorough 4); pool answers: default (most recent), any older item, New(), <=1 (thorough 2) deviations; pooled buffers are overwritten with 0xEE when put back; non-trivial = histories with more than one explored pool environment",
 		Bounds: func(tier string) map[string]any {
 			return map[string]any{"history_length": map[string]int{"quick": 3, "thorough": 4}[tier], "pool_deviations": map[string]int{"quick": 1, "thorough": 2}[tier], "symbols": len(c10Alphabet())}
 		},
